@@ -88,6 +88,9 @@ type rqDomain struct {
 func rqDomains(c *core.Ctx, bs, bd int) []rqDomain {
 	var ds []rqDomain
 	switch {
+	case bs == 8:
+		// every value, 67 times in a row: 8-bit sources also go through long buffers
+		ds = append(ds, rqDomain{"all (each value 67x)", genRepeat(minAmp(bs), maxAmp(bs), 67), true, true, 1})
 	case bs <= 16:
 		ds = append(ds, rqDomain{"all", genRange(minAmp(bs), maxAmp(bs)), true, true, 1})
 	case bs == 32 && !c.Quick():
@@ -228,6 +231,9 @@ func rqRun(which string) func(c *core.Ctx) {
 						evals.Add(n)
 					}
 					if dom.primary {
+						if ts.Bits == 8 {
+							n /= 67
+						}
 						distinct.Add(n)
 					}
 					if c.WantSample() {
